@@ -1,3 +1,9 @@
 package refsshagent
+
 import "testing"
-func TestSelf(t *testing.T){ if err := SelfTest(); err != nil { t.Fatal(err) } }
+
+func TestSelf(t *testing.T) {
+	if err := SelfTest(); err != nil {
+		t.Fatal(err)
+	}
+}
